@@ -433,10 +433,30 @@ class Hist:
             return self.op_rename(p, other, rng.random() < 0.5), True
         return self.op_remove(p), True
 
+    # ---- scripted beginnings: each anchors one mechanism; the seeded walk continues from there ---------------
+    def a_name(self, kinds):
+        c = [n for n in NAMES if self.kinds[n] in kinds]
+        return self.rng.choice(c) if c else None
+
+    def opened(self, rec):
+        return not self.hung and self.hs[rec["h"]]["obj"] is not None
+
+    def tpl_written_handle(self, p, big_p=0.3):
+        """open a path for writing and write through the handle; -> the Open record or None"""
+        rng = self.rng
+        k = self.kinds.get(p["n"]) if p["t"] == "name" else "mut"
+        rec = self.op_open(p, set("RWC") if k == "none" else set(rng.choice(["RW", "W", "RWA", "RWC"])))
+        self.wait(observe=True)
+        if not self.opened(rec):
+            return None
+        self.op_write(rec["h"], rng.choice([0, 1, 3]), self.rand_data(big=rng.random() < big_p) or [7])
+        self.wait(observe=False)
+        return rec
+
     def template_reopen(self):
-        """scripted prefix of some piped histories: write a file, send its close and - before the close is answered -
-        open the same name again, then read through the new handle ("if a file has been written, then closed, and is now
-        being reopened, then we have to delay the open until the previous upload/publish has completed")"""
+        """write a file, send its close and - before the close is answered - open the same name again, then read through
+        the new handle ("if a file has been written, then closed, and is now being reopened, then we have to delay the open
+        until the previous upload/publish has completed")"""
         rng = self.rng
         files = [n for n in NAMES if self.kinds[n] in ("imm", "mut")] or [n for n in NAMES if self.kinds[n] == "none"]
         muts = [n for n in files if self.kinds[n] == "mut"]
@@ -446,26 +466,116 @@ class Hist:
             p = {"t": "uri", "n": "M1"}                  # the mutable file by its write cap
         else:
             p = {"t": "name", "n": rng.choice(files)}
-        n = p["n"]
-        rec = self.op_open(p, set("RWC") if self.kinds.get(n) == "none" else set(rng.choice(["RW", "W", "RWA"])))
-        self.wait(observe=True)
-        if self.hung or self.hs[rec["h"]]["obj"] is None:
+        rec = self.tpl_written_handle(p, big_p=0.5)
+        if rec is None:
             return
-        self.op_write(rec["h"], rng.choice([0, 1, 3]), self.rand_data(big=rng.random() < 0.5))
-        self.wait(observe=False)
         self.op_close(rec["h"])
         if self.unanswered:
             self.progress(rng.choice([0, 0, 0, 0, 1, 2, 4]))
         rec2 = self.op_open(p, set(rng.choice(["R", "R", "RW"])))
         self.wait(observe=True)
-        if not self.hung and self.hs[rec2["h"]]["obj"] is not None:
+        if self.opened(rec2):
             self.op_read(rec2["h"], 0, 1000)
             self.wait(observe=False)
 
+    def template_close_then(self):
+        """a commit that is still on its way when a rename / remove / getAttrs of the name arrives"""
+        rng = self.rng
+        n = self.a_name(("imm", "none")) or self.a_name(("mut",))
+        if n is None:
+            return
+        p = {"t": "name", "n": n}
+        rec = self.tpl_written_handle(p, big_p=0.7)
+        if rec is None:
+            return
+        self.op_close(rec["h"])
+        if self.unanswered:
+            self.progress(rng.choice([0, 0, 0, 1, 2, 4]))
+        other = {"t": "name", "n": rng.choice([m for m in NAMES if m != n])}
+        x = rng.random()
+        if x < 0.4:
+            self.op_remove(p)
+        elif x < 0.8:
+            self.op_rename(p, other, rng.random() < 0.5)
+        else:
+            self.op_stat(p)
+        self.wait(observe=True)
+
+    def template_open_then(self):
+        """an open for writing that is still on its way when a getAttrs / rename / remove of the name arrives"""
+        rng = self.rng
+        n = self.a_name(("none", "imm", "mut"))
+        if n is None:
+            return
+        p = {"t": "name", "n": n}
+        self.op_open(p, set(rng.choice(["WC", "RWC", "WCT", "RWCT"])))
+        if self.unanswered:
+            self.progress(rng.choice([0, 0, 1, 2]))
+        other = {"t": "name", "n": rng.choice([m for m in NAMES if m != n])}
+        x = rng.random()
+        if x < 0.4:
+            self.op_stat(p)
+        elif x < 0.75:
+            self.op_rename(p, other, rng.random() < 0.5)
+        else:
+            self.op_remove(p)
+        self.wait(observe=True)
+
+    def template_unlink_or_move_open(self):
+        """remove or rename a name while a handle written through is open, then close the handle: a removed file does not
+        come back, a renamed one is committed at the new name and nothing reappears under the old one"""
+        rng = self.rng
+        n = self.a_name(("imm", "none", "mut"))
+        if n is None:
+            return
+        p = {"t": "name", "n": n}
+        rec = self.tpl_written_handle(p)
+        if rec is None:
+            return
+        if rng.random() < 0.5:
+            self.op_remove(p)
+        else:
+            self.op_rename(p, {"t": "name", "n": rng.choice([m for m in NAMES if m != n])}, rng.random() < 0.5)
+        self.wait(observe=True)
+        if self.hung:
+            return
+        if rng.random() < 0.5:
+            self.op_stat(p)
+            self.wait(observe=False)
+        self.op_close(rec["h"])
+        self.wait(observe=True)
+
+    def template_eof(self):
+        """reads at, before and past the end of the file as the handle reports it"""
+        rng = self.rng
+        n = self.a_name(("imm", "mut", "mro"))
+        p = {"t": "name", "n": n} if n and rng.random() < 0.8 else rng.choice([{"t": "ro", "n": "i"}, {"t": "uri", "n": "I"}, {"t": "ro", "n": "m"}])
+        rec = self.op_open(p, set(rng.choice(["R", "R", "RW"])) if p["t"] == "name" else {"R"})
+        self.wait(observe=False)
+        if not self.opened(rec):
+            return
+        st = self.op_fstat(rec["h"])
+        self.wait(observe=False)
+        size = st["res"].get("size", 0) if st["res"].get("st") == "ok" else 0
+        for off in (size, max(size - 1, 0), size + 1):
+            if self.hung:
+                return
+            self.op_read(rec["h"], off, rng.choice([1, 5, 1000]))
+            self.wait(observe=False)
+
+    def template(self):
+        rng = self.rng
+        if self.profile == "piped":
+            t = rng.choice([self.template_reopen] * 4 + [self.template_close_then] * 3 + [self.template_open_then] * 2 +
+                           [self.template_unlink_or_move_open])
+        else:
+            t = rng.choice([self.template_unlink_or_move_open] * 2 + [self.template_eof])
+        t()
+
     def run(self, nreq):
         rng = self.rng
-        if self.profile == "piped" and rng.random() < 0.6:
-            self.template_reopen()
+        if rng.random() < (0.8 if self.profile == "piped" else 0.5):
+            self.template()
         while len(self.events) < nreq and not self.hung:
             rec, may_change, name = self.one_request()
             overlap = (self.profile == "piped" and name is not None and rng.random() < 0.6 and
